@@ -388,7 +388,7 @@ def r5_profile(ctx):
             ctx.check("R5", "%s|direction-depends-on-sign-of-d%s|%s" % (qn, nm, tag), True if need in odd else False,
                       "the %s of the profile depends on the sign of point2[%d] - point1[%d]" % (nm, k, k),
                       bad="the %s of the profile depends on point2[%d] only through even functions (distance): profiles towards decreasing %s are mirrored" % (nm, k, nm), fn=qn)
-    ok = any(p.exit == "raise" and p.conds and p.conds[-1][0] == ("cmp", "<=", ("param", "size"), const(0)) and p.conds[-1][1] for p in ctx.paths(qn))
+    ok = any(p.exit == "raise" and p.conds and p.conds[-1][0] in (("cmp", "<=", ("param", "size"), const(0)), ("cmp", "<", ("param", "size"), const(1))) and p.conds[-1][1] for p in ctx.paths(qn))
     ctx.check("R5", qn + "|rejects-nonpositive-size", True if ok else False, "size <= 0 raises", bad="non-positive sizes are no longer rejected", fn=qn)
 
 
